@@ -1291,16 +1291,22 @@ class ManifestRecursiveLoader:
                         mm.entries.append(fe)
                         self.updated_manifests.add(mmpath)
                     else:
-                        if ftype == 'AUX':
+                        if fe.tag == 'AUX':
                             # AUX has implicit files/ prefix in .path
                             # but for now, we've shoved our path
                             # into .aux_path
                             fe.path = os.path.relpath(fe.aux_path,
                                                       mdirpath)
-                            assert path_inside_dir(fe.path, 'files')
-                            # drop files/ prefix for the entry
-                            fe.aux_path = os.path.relpath(
-                                fe.path, 'files')
+                            if path_inside_dir(fe.path, 'files'):
+                                # drop files/ prefix for the entry
+                                fe.aux_path = os.path.relpath(
+                                    fe.path, 'files')
+                            else:
+                                # the Manifest is not in the package
+                                # directory, AUX can not express this
+                                fe = new_manifest_entry(
+                                    'DATA', fe.path, fe.size,
+                                    fe.checksums)
                         else:
                             fe.path = os.path.relpath(fe.path, mdirpath)
                         # do not add duplicate entry if the path is ignored
